@@ -523,6 +523,15 @@ class SymEngine:
     def _cmp(self, op, l, r):
         sym = {"Eq": "==", "NotEq": "!=", "Lt": "<", "LtE": "<=", "Gt": ">", "GtE": ">=", "Is": "is",
                "IsNot": "isnot", "In": "in", "NotIn": "notin"}[type(op).__name__]
+        if is_c(l) and is_c(r):
+            # both sides are known values (a parameter specialised on its default, a sentinel compared with itself)
+            a, b = l[1], r[1]
+            if sym in ("is", "isnot") and (a is None or b is None or isinstance(a, bool) or isinstance(b, bool) or a is b
+                                           or type(a).__name__ == "Sentinel" or type(b).__name__ == "Sentinel"):
+                same = a is b or (a is None and b is None) or (type(a).__name__ == "Sentinel" and type(b).__name__ == "Sentinel" and a.name == b.name)
+                return C(same if sym == "is" else not same)
+            if sym in ("==", "!=") and type(a) is type(b) and isinstance(a, (int, bytes, str, bool, type(None))):
+                return C((a == b) if sym == "==" else (a != b))
         # normalise: constant on the right for symmetric ops, flip for ordered ones
         if is_c(l) and not is_c(r):
             flip = {"==": "==", "!=": "!=", "<": ">", "<=": ">=", ">": "<", ">=": "<=", "is": "is", "isnot": "isnot"}
@@ -661,6 +670,9 @@ class SymEngine:
                 ret, cf = cases[0]
                 if not (cf.kind or cf.truth or cf.eq or cf.ne or cf.none or cf.inset or cf.offs) and not any(v != (0, INF) for v in cf.len.values()):
                     memo[key] = ret
+            elif cases and len({c_[0] for c_ in cases}) == 1 and not any(isinstance(n_, (ast.Raise, ast.Assert)) for n_ in ast.walk(g.node)):
+                # several paths, one value (a fast path and a slow path that compute the same thing), no refusal
+                memo[key] = cases[0][0]
         ret = memo[key]
         if ret is None:
             return None
